@@ -173,6 +173,27 @@ def run(program, res, tier):
                         res.fail_at("C17-S3", cp, "composed-blocks_out", f"composed blocks_out takes control keys from `{txt}`", cc)
     if n_ctor < 4:
         raise AnalysisError("RecordMap.compose: composed specifications not found")
+    # every composite that compose() returns is derived from the sequential application of the two maps to the probe
+    # (the only place where the middle specifications s1.blocks_out / s2.blocks_in meet)
+    n_ret = 0
+    d3c = depsmod.Deps(g3, cp.params(), control=True)  # a composite chosen by a test on the probe's result counts as derived from it
+    for nn in g3.stmt_nodes(("return",)):
+        v = nn.stmt.value
+        if v is None or (isinstance(v, ast.Constant) and v.value is None):
+            continue
+        if not any(isinstance(cc, ast.Call) and dotted_name(cc.func) == "RecordMap" for cc in ast.walk(v)):
+            continue
+        n_ret += 1
+        roots = d3c.roots_at(nn, v) | d3c.own_guard_roots(nn)
+        if "call:transform" in roots:
+            res.ok("C17-S3", f"compose(): returned map (line {nn.stmt.lineno}) is derived from the probe pushed through both transforms")
+        else:
+            res.fail_at("C17-S3", cp, "composite-not-from-sequential-application",
+                        f"compose() can return `{unparse(v)[:80]}`, assembled from {sorted(r for r in roots if not r.startswith('call:') and not r.startswith('g:'))[:4]} "
+                        f"without pushing a probe through `{other}` and then `self`: the middle specifications ({other}.blocks_out against self.blocks_in) are never "
+                        f"confronted, so the composite can differ from applying the two maps in sequence", v)
+    if n_ret < 3:
+        raise AnalysisError("RecordMap.compose: returned composites not found")
     ao = rm.methods.get("act_on")
     res.analysed(ao)
     ok = False
